@@ -95,8 +95,11 @@ def gen_algebra(rng, tier):
         rows = {"q": [[float(v)] for v in rng.permutation(5)[:k] + rng.uniform(0, 0.2, k)]}
     elif kind == "data_first":
         # a data sampler as FIRST factor receives the (changing) points of the second factor as parameters on every call
-        a = {"s": "data", "var": "y", "n": int(rng.choice([1, 3, 6])), "dom": ydom, "target": "interior"}
-        b = _leaf(rng, tdom, "t", kinds=("random", "random", "grid"), n=int(rng.choice([1, 2, 4])))
+        a = {"s": "data", "var": "y", "n": int(rng.choice([1, 2, 3, 4, 6])), "dom": ydom, "target": "interior"}
+        # in 40 % of the cases the second factor yields exactly as many points as the data set has rows (the partner rows
+        # then have the batch shape of the data: still a full product)
+        nb = a["n"] if rng.random() < 0.4 else int(rng.choice([1, 2, 4]))
+        b = _leaf(rng, tdom, "t", kinds=("random", "random", "grid"), n=nb)
         spec = {"s": "prod", "a": a, "b": b}
     elif kind == "sum":
         spec = {"s": "sum", "a": _leaf(rng, _xdom(rng), "x"), "b": _leaf(rng, _xdom(rng), "x", target="boundary")}
